@@ -209,7 +209,9 @@ def spellings(A):
         add('index-first', lambda: asmgen.render_intel(A, {'order': 'index_first'}))
     if any(o[0] == 'mem' and (o[1] is not None or o[2] is not None) and 0 < (o[4] & 0xffffffff) < 0x80000000 for o in A['ops']):
         add('disp-first', lambda: asmgen.render_intel(A, {'order': 'disp_first'}))
+    if any(o[0] == 'mem' and (o[1] is not None or o[2] is not None) and (o[4] & 0xffffffff) for o in A['ops']):
         add('disp-outside', lambda: asmgen.render_intel(A, {'disp_outside': True}))
+        add('disp-middle', lambda: asmgen.render_intel(A, {'order': 'disp_middle'}))
     if any(o[0] == 'mem' and (o[1] is not None or o[2] is not None) and o[7] == 32 for o in A['ops']):
         add('split-disp', lambda: asmgen.render_intel(A, {'order': 'split_disp'}))
         add('split-disp-lead', lambda: asmgen.render_intel(A, {'order': 'split_disp', 'lead': True}))
